@@ -27,17 +27,21 @@ LEAVES = [
 KEYS = ["a", "b", "k1", "k10", "K", "_x", "é", "z\U0001F600", "_mementoTyp", "iso8601"]
 
 
-def rand_value(r, depth=2):
+FINITE = None
+
+
+def rand_value(r, depth=2, pool=None):
+    pool = pool or LEAVES
     x = r.random()
     if depth == 0 or x < 0.6:
-        return copy.deepcopy(r.choice(LEAVES))
+        return copy.deepcopy(r.choice(pool))
     if x < 0.75:
-        return {"t": "list", "v": [rand_value(r, depth - 1) for _ in range(r.randint(0, 3))]}
+        return {"t": "list", "v": [rand_value(r, depth - 1, pool) for _ in range(r.randint(0, 3))]}
     if x < 0.92:
         ks = r.sample(KEYS, r.randint(0, 3))
-        return {"t": "dict", "v": [[k, rand_value(r, depth - 1)] for k in ks]}
-    pa = [rand_value(r, 0) for _ in range(r.randint(0, 1))]
-    pk = [["q", rand_value(r, 0)]] if r.random() < 0.5 and len(pa) < 2 else []
+        return {"t": "dict", "v": [[k, rand_value(r, depth - 1, pool)] for k in ks]}
+    pa = [rand_value(r, 0, pool) for _ in range(r.randint(0, 1))]
+    pk = [["q", rand_value(r, 0, pool)]] if r.random() < 0.5 and len(pa) < 2 else []
     return {"t": "fnref", "pargs": pa, "pkw": pk}
 
 
